@@ -63,17 +63,17 @@ def run(cx):
     names = variant_names(cx, 'key::Sm2Model')
     # find the slicing calls on the ciphertext parameter
     slices = {}
-    for b, t in fn.calls():
-        if t['fn']['k'] == 'def' and last(t['fn']['name']) == 'index':
-            a = G.call_args(fn, P, b)
-            if a[0].k == 'param' and a[0].name == 'ciphertext':
-                conds = select_conds(fn, P, b, cn)
-                vn = 'any'
-                for c in conds:
-                    if c.startswith('discr($model)='):
-                        v = c.split('=')[1]
-                        vn = names[int(v)] if v.isdigit() and int(v) < len(names) else v
-                slices.setdefault(vn, []).append(cn.c(a[1]))
+    for b, parts in FR.slice_sites(fn, P, cn, 'ciphertext'):
+        conds = select_conds(fn, P, b, cn)
+        vn = 'any'
+        for c in conds:
+            if c.startswith('discr($model)='):
+                v = c.split('=')[1]
+                vn = names[int(v)] if v.isdigit() and int(v) < len(names) else v
+        for e_ in parts:
+            es_ = strip(e_)
+            if es_.k == 'call' and last(es_.name) in ('index', 'index_mut') and len(es_.args) == 2 and strip(es_.args[0]).k == 'param':
+                slices.setdefault(vn, []).append(cn.c(es_.args[1]))
     c1e = 'phi(33 | 65)'
     want = {
         'any': ['Range::Range{0, %s}' % c1e],
